@@ -103,52 +103,76 @@ Section Dopri5.
     Definition finish (st : status) (s : state H) (h : F) : result H :=
       mkR st h (s_stats s) (s_x s) (s_y s) (s_log s) (s_cb s).
 
+    Definition facc1 := one O / p_scale_min P.
+    Definition facc2 := one O / p_scale_max P.
+    Definition expo1 := L L0_2 - p_beta P * L L0_75.
+
+    (* landing rule: (step to take, is it the last one) *)
+    Definition landing (x h : F) (last : bool) : F * bool :=
+      if ((x + L L1_01 * h - xend) * posneg) >? zero O then (xend - x, true) else (h, last).
+
+    (* proposed step after an attempt with error norm err *)
+    Definition hnew_of (h err facold : F) : F :=
+      let fac11 := pow O err expo1 in
+      let fac := fac11 / pow O facold (p_beta P) in
+      let fac := fmax O facc2 (fmin O facc1 (fac / p_safety P)) in
+      h / fac.
+    Definition hnew_reject (h err : F) : F :=
+      h / fmin O facc1 (pow O err expo1 / p_safety P).
+    (* clamps applied to the proposal after an accepted, non-final step *)
+    Definition hnew_clamp (hnew h : F) (reject : bool) : F :=
+      let hnew := if abs O hnew >? abs O hmax then posneg * abs O hmax else hnew in
+      if reject then posneg * fmin O (abs O hnew) (abs O h) else hnew.
+
+    (* stiffness test of an accepted step: (hlamb, nonstiff, iasti, exit with ProbablyStiff?) *)
+    Definition stiff_test (s : state H) (y : vec) (h : F) (a : attempt) (st0 : stats) : F * N * N * bool :=
+      let do_stiff := N.eqb (N.modulo (naccpt st0) (p_nstiff P)) 0 || N.ltb 0 (s_iasti s) in
+      let ks := at_ks a in
+      let k2 := at_knew a in let k6 := nth 5 ks [] in
+      if do_stiff then
+        (* NB: k4 has been overwritten by the error vector at this point in the code *)
+        let ks' := firstn 3 ks ++ [at_errv a] ++ skipn 4 ks in
+        let ks'' := firstn 1 ks' ++ [k2] ++ skipn 2 ks' in
+        let ysti := stage_arg O h y ks'' (RSum [(Consts_dopri5.A61,0); (Consts_dopri5.A62,1);
+                        (Consts_dopri5.A63,2); (Consts_dopri5.A64,3); (Consts_dopri5.A65,4)]) in
+        let stnum := fold_left (fun acc p => let d1 := fst p - snd p in acc + d1 * d1)
+                               (combine k2 k6) (zero O) in
+        let stden := fold_left (fun acc p => let d2 := fst p - snd p in acc + d2 * d2)
+                               (combine (at_ynew a) ysti) (zero O) in
+        let hlamb := if stden >? zero O then abs O h * sqrt O (stnum / stden) else s_hlamb s in
+        if hlamb >? L L3_25 then
+          let iasti := (s_iasti s + 1)%N in
+          (hlamb, 0%N, iasti, N.eqb iasti 15)
+        else
+          let nonstiff := (s_nonstiff s + 1)%N in
+          (hlamb, nonstiff, if N.eqb nonstiff 6 then 0%N else s_iasti s, false)
+      else (s_hlamb s, s_nonstiff s, s_iasti s, false).
+
+    (* what a ModifiedSolution return costs: re-evaluate the derivative at the written state *)
+    Definition after_flag (fl : flag F) (xph : F) (ycb k2 : vec) (st0 : stats) (log : list (F * vec))
+      : vec * stats * list (F * vec) :=
+      match fl with
+      | ModifiedSolution => (f xph ycb, add_fev st0 1, (xph, ycb) :: log)
+      | _ => (k2, st0, log)
+      end.
+
     Definition step (s : state H) : state H + result H :=
-      let x := s_x s in let y := s_y s in let h := s_h s in
-      let facc1 := one O / p_scale_min P in
-      let facc2 := one O / p_scale_max P in
-      let expo1 := L L0_2 - p_beta P * L L0_75 in
-      if N.ltb (p_max_steps P) (nstep (s_stats s)) then inr (finish NeedLargerNMax s h)
-      else if (L L0_1 * abs O h) <=? (abs O x * p_uround P) then inr (finish StepSizeTooSmall s h)
+      let x := s_x s in let y := s_y s in
+      if N.ltb (p_max_steps P) (nstep (s_stats s)) then inr (finish NeedLargerNMax s (s_h s))
+      else if (L L0_1 * abs O (s_h s)) <=? (abs O x * p_uround P) then inr (finish StepSizeTooSmall s (s_h s))
       else
-        let '(h, last) := if ((x + L L1_01 * h - xend) * posneg) >? zero O then (xend - x, true)
-                          else (h, s_last s) in
+        let '(h, last) := landing x (s_h s) (s_last s) in
         let stats := add_step (s_stats s) in
         let a := kern x y (s_k1 s) h in
         let stats := add_fev stats 6 in
         let log := rev_append (at_calls a) (s_log s) in
         let xph := x + h in
         let err := at_err a in
-        let fac11 := pow O err expo1 in
-        let fac := fac11 / pow O (s_facold s) (p_beta P) in
-        let fac := fmax O facc2 (fmin O facc1 (fac / p_safety P)) in
-        let hnew := h / fac in
+        let hnew := hnew_of h err (s_facold s) in
         if err <=? one O then
           let facold := fmax O err (L L1em4) in
           let stats := add_acc stats in
-          (* stiffness detection *)
-          let do_stiff := N.eqb (N.modulo (naccpt stats) (p_nstiff P)) 0 || N.ltb 0 (s_iasti s) in
-          let ks := at_ks a in
-          let k2 := at_knew a in let k6 := nth 5 ks [] in
-          let '(hlamb, nonstiff, iasti, stiff_exit) :=
-            if do_stiff then
-              (* NB: k4 has been overwritten by the error vector at this point in the code *)
-              let ks' := firstn 3 ks ++ [at_errv a] ++ skipn 4 ks in
-              let ks'' := firstn 1 ks' ++ [k2] ++ skipn 2 ks' in
-              let ysti := stage_arg O h y ks'' (RSum [(Consts_dopri5.A61,0); (Consts_dopri5.A62,1);
-                              (Consts_dopri5.A63,2); (Consts_dopri5.A64,3); (Consts_dopri5.A65,4)]) in
-              let stnum := fold_left (fun acc p => let d1 := fst p - snd p in acc + d1 * d1)
-                                     (combine k2 k6) (zero O) in
-              let stden := fold_left (fun acc p => let d2 := fst p - snd p in acc + d2 * d2)
-                                     (combine (at_ynew a) ysti) (zero O) in
-              let hlamb := if stden >? zero O then abs O h * sqrt O (stnum / stden) else s_hlamb s in
-              if hlamb >? L L3_25 then
-                let iasti := (s_iasti s + 1)%N in
-                (hlamb, 0%N, iasti, N.eqb iasti 15)
-              else
-                let nonstiff := (s_nonstiff s + 1)%N in
-                (hlamb, nonstiff, if N.eqb nonstiff 6 then 0%N else s_iasti s, false)
-            else (s_hlamb s, s_nonstiff s, s_iasti s, false) in
+          let '(hlamb, nonstiff, iasti, stiff_exit) := stiff_test s y h a stats in
           if stiff_exit then
             inr (mkR ProbablyStiff h stats x y log (s_cb s))
           else
@@ -158,22 +182,16 @@ Section Dopri5.
             match fl with
             | Interrupt => inr (mkR UserInterrupt h stats xph ycb log cbs)
             | _ =>
-                let '(k1, stats, log) :=
-                  match fl with
-                  | ModifiedSolution => (f xph ycb, add_fev stats 1, (xph, ycb) :: log)
-                  | _ => (k2, stats, log)
-                  end in
+                let '(k1, stats, log) := after_flag fl xph ycb (at_knew a) stats log in
                 if last then inr (mkR Success hnew stats xph ycb log cbs)
                 else
-                  let hnew := if abs O hnew >? abs O hmax then posneg * abs O hmax else hnew in
-                  let hnew := if s_reject s then posneg * fmin O (abs O hnew) (abs O h) else hnew in
-                  inl (mkS xph ycb k1 hnew facold last false nonstiff hlamb iasti stats log cbs)
+                  inl (mkS xph ycb k1 (hnew_clamp hnew h (s_reject s)) facold last false
+                           nonstiff hlamb iasti stats log cbs)
             end
         else
-          let hnew := h / fmin O facc1 (fac11 / p_safety P) in
           let stats := if N.ltb 1 (naccpt stats) then add_rej stats else stats in
-          inl (mkS x y (s_k1 s) hnew (s_facold s) false true (s_nonstiff s) (s_hlamb s) (s_iasti s)
-                   stats log (s_cb s)).
+          inl (mkS x y (s_k1 s) (hnew_reject h err) (s_facold s) false true (s_nonstiff s) (s_hlamb s)
+                   (s_iasti s) stats log (s_cb s)).
 
     Fixpoint loop (fuel : nat) (s : state H) : option (result H) :=
       match fuel with
